@@ -414,9 +414,12 @@ let c17 (rest : string) : string =
       let buf = Buffer.create 256 in
       Buffer.add_string buf ("adv=" ^ (match Timers.advertised l with None -> "-" | Some v -> str_n v) ^ " ; ");
       let tres_str = function Timers.TOk -> "ok" | Timers.TRemoteClosed -> "RemoteClosed" | Timers.TIdleTimeout -> "IdleTimeout" in
+      let now = ref 0 in
       let s = Stdlib.List.fold_left (fun s e ->
+        (* `begin`: the application begins a session (the peer never answers): one frame at once, the timers unaffected *)
+        let extra = (match words e with ["begin"; _] when s.Timers.phase = Timers.POpened -> [Printf.sprintf "B0@%d" !now] | _ -> []) in
         let (st, dt) = match words e with
-          | ["w"; d] -> (Timers.SNone, d) | ["po"; r; d] -> (Timers.SPeerOpen (opt_n r), d)
+          | ["w"; d] | ["begin"; d] -> (Timers.SNone, d) | ["po"; r; d] -> (Timers.SPeerOpen (opt_n r), d)
           | ["pz"; d] -> (Timers.SPeerEmpty, d) | ["pc"; d] -> (Timers.SPeerClose, d)
           | ["close"; d] -> (Timers.SClose, d) | ["closee"; d] -> (Timers.SCloseErr, d)
           | _ -> failwith ("c17: bad event " ^ e) in
@@ -424,6 +427,8 @@ let c17 (rest : string) : string =
         let wire = Stdlib.List.filter_map (function
           | Timers.OEmpty t -> Some ("Z@" ^ str_n t) | Timers.OClose (t, false) -> Some ("C@" ^ str_n t)
           | Timers.OClose (t, true) -> Some ("Ce@" ^ str_n t) | _ -> None) o in
+        let wire = extra @ wire in
+        now := !now + int_of_string dt;
         let dones = Stdlib.List.filter_map (function
           | Timers.OOpenDone true -> Some "open=ok" | Timers.OOpenDone false -> Some "open=err"
           | Timers.OCloseDone r -> Some ("close=" ^ tres_str r) | Timers.OOutOfScope -> Some "OUT-OF-SCOPE" | _ -> None) o in
